@@ -10,6 +10,8 @@
  *   tprobe <pfn>          one-page MACHPHYS read; the first 24-byte read issued by
  *                         diskdump_read_page is the page descriptor
  *                         > tprobe pd=<fidx>:<pos> | pd=-
+ *   zx <0|1>              set file.zero_excluded
+ *   zprobe <pfn>          one-page MACHPHYS read      > zprobe pd=<fidx>:<pos> | zero | <status>
  *
  * Link with -Wl,--wrap=_kdumpfile_priv_fcache_pread,--wrap=_kdumpfile_priv_flatmap_pread_flat
  * Buffers are allocated at their exact size so that ASan sees any overrun.
@@ -130,6 +132,23 @@ int main(void)
 			kdump_read(ctx, KDUMP_MACHPHYSADDR, a * n, buf, &n);
 			if (have_pd) printf("> tprobe pd=%u:%lld\n", pd_fidx, pd_pos);
 			else puts("> tprobe pd=-");
+			free(buf);
+		} else if (sscanf(line, "zx %" SCNu64, &a) == 1) {
+			kdump_attr_t at; at.type = KDUMP_NUMBER; at.val.number = a;
+			if (kdump_set_attr(ctx, "file.zero_excluded", &at) != KDUMP_OK) printf("> zx failed %s\n", kdump_get_err(ctx));
+		} else if (sscanf(line, "zprobe %" SCNu64, &a) == 1) {
+			/* one-page read with the option as set by `zx`: where does the content come from? */
+			size_t n = get_page_size(ctx), i;
+			unsigned char *buf = malloc(n);
+			kdump_status st;
+			have_pd = 0;
+			memset(buf, 0xA5, n);
+			st = kdump_read(ctx, KDUMP_MACHPHYSADDR, a * n, buf, &n);
+			if (have_pd) printf("> zprobe pd=%u:%lld\n", pd_fidx, pd_pos);
+			else if (st == KDUMP_OK) {
+				for (i = 0; i < n && !buf[i]; ++i) ;
+				printf("> zprobe %s\n", i == n && n == get_page_size(ctx) ? "zero" : "ok-but-not-zero");
+			} else printf("> zprobe %s%s\n", kstatus_name(st), *kdump_get_err(ctx) ? "" : " C16:empty-message");
 			free(buf);
 		} else if (!strncmp(line, "split", 5) || !strncmp(line, "sfile ", 6) || !strncmp(line, "path ", 5)) {
 			;
